@@ -455,6 +455,9 @@ func RunLockstep(c *Case, pick func(n int) int, hk *Hooks) *Outcome {
 		}
 	}
 	tr := in.Traces()
+	if rep := RepeatedFlowID(tr); rep != "" {
+		return fail("flow-id-repeat", rep, gs)
+	}
 	sum := Summarize(tr)
 	out.Summary = sum
 	if miss, extra := multisetDiff(m.AllFlows, sum.Flows); len(miss)+len(extra) > 0 {
